@@ -48,6 +48,14 @@ var replayFns = map[string]vlib.ReplayFn{
 	},
 }
 
+func init() {
+	ev.Assume("corpora have no deletions and merging is switched off (MergePlanOptions.MaxSegmentSize=1, MinSegmentsForInMemoryMerge=1<<30): the N and avgdl leaves are compared with the live documents of the corpus, and ice rewrites the length sum when it merges (DESIGN finding #10)")
+	ev.Assume("the field-length law is stated on the length the scorer decodes from the norm: ComputeNorm stores the length as float32 bits, lengths 0x7F800001..0x7FBFFFFF are signalling-NaN patterns that the float32->float64->float32 round trip quiets (length | 0x400000); pairs decoding to the same length are only required to score equally")
+	ev.Assume("law comparisons: inversion beyond 32 ulp of the term weight boost*idf is a violation; strict order demanded when the exact values differ by more than 8 ulp of the weight (rounding analysis of weight - weight/(1+freq*x) bounds the error of one score by 3.5 ulp)")
+	ev.Assume("query trees containing a fuzzy leaf with a candidate term at edit distance >= the shorter term's length are counted, not judged (known finding fuzzy-nonpositive-term-boost)")
+	ev.Assume("a boolean query of must-not clauses only is required to score finite and positive and linearly in its boost; its base value (the implied match-all) is not fixed by the property")
+}
+
 func TestReplay(t *testing.T)  { vlib.ReplayMain(t, ev, replayFns) }
 func TestRegress(t *testing.T) { vlib.RegressMain(t, ev, replayFns) }
 
